@@ -31,6 +31,19 @@ def types():
     out.append(ir.union_("DoubleUnion", [ir.field("d", ir.prim("DOUBLE")), ir.field("l", ir.list_(ir.prim("DOUBLE"))),
                                          ir.field("leaf", ir.ref("DoubleLeaf", PKG)), ir.field("s", ir.prim("STRING")),
                                          ir.field("o", ir.optional(ir.prim("DOUBLE")))], package=PKG))
+    # every key type of the data model the shape universe does not draw, as map keys and set elements of generated types
+    # (BTreeMap / BTreeSet use the runtime types' own Ord impls)
+    pr = ir.prim
+    out.append(ir.object_("KeyZoo", [
+        ir.field("mr", ir.map_(pr("RID"), pr("INTEGER"))), ir.field("mt", ir.map_(pr("BEARERTOKEN"), pr("INTEGER"))),
+        ir.field("md", ir.map_(pr("DATETIME"), pr("INTEGER"))), ir.field("ml", ir.map_(pr("SAFELONG"), pr("INTEGER"))),
+        ir.field("mb", ir.map_(pr("BINARY"), pr("INTEGER"))), ir.field("ma", ir.map_(ir.ref("PlStr", PKG), pr("INTEGER"))),
+        ir.field("mai", ir.map_(ir.ref("PlInt", PKG), pr("STRING"))), ir.field("mal", ir.map_(ir.ref("PlLong", PKG), pr("STRING"))),
+        ir.field("sr", ir.set_(pr("RID"))), ir.field("sl", ir.set_(pr("SAFELONG"))), ir.field("su", ir.set_(pr("UUID"))),
+        ir.field("st", ir.set_(pr("DATETIME"))), ir.field("sk", ir.set_(pr("BEARERTOKEN"))), ir.field("sb", ir.set_(pr("BINARY"))),
+        ir.field("sa", ir.set_(ir.ref("PlInt", PKG))), ir.field("sbool", ir.set_(pr("BOOLEAN"))),
+        ir.field("se", ir.set_(ir.ref("Grammar", PKG))), ir.field("sar", ir.set_(ir.ref("PlRid", PKG))),
+    ], package=PKG))
     out.append(ir.alias_("OptStrAlias", ir.optional(ir.prim("STRING")), package=PKG))
     out.append(ir.alias_("OptInnerAlias", ir.optional(ir.ref("Inner", PKG)), package=PKG))
     out.append(ir.alias_("SafeStr", ir.prim("STRING"), safety="safe", package=PKG))
@@ -137,7 +150,7 @@ def error_types():
 
 
 def wire_types():
-    return ["DoubleBag", "DoubleLeaf", "DoubleUnion", "RecA", "RecB"]
+    return ["DoubleBag", "DoubleLeaf", "DoubleUnion", "RecA", "RecB", "KeyZoo"]
 
 
 def order_types():
